@@ -210,3 +210,46 @@ fn vs_split_undersized_probe_is_flagged() {
     kani::cover!(true, "end of harness reachable (assumptions satisfiable, no unconditional failure)");
 }
 }
+
+// ---- buffer growth inside the segmentation step (C19.3) ---------------------------------------------
+
+// @verif id=VS.split.grow props=C19,C02 tier=quick timeout=900
+// @functions VirtualSocket::split_tx_queue_into_segments (growth decision), UserTx::grow
+// @bounds send buffer of 8 bytes completely full, configured maximum 16, windows 1024 (so the buffer is the bottleneck); a blocked writer registered; an unexpired MTU probe outstanding or not (contract stub outcome)
+// @asserts the buffer grows to exactly min(2*8, 16) = 16 bytes and the blocked writer is woken in the same call, whether or not segmentation then stops early behind an outstanding probe
+// @stubs Heap::new -> allocation-size concretisation (asserts the requested capacity == 16); Segments::pop_expired_mtu_probe -> contract stub
+// @unwindset make_tx_at=9,__vs::record=37
+crate::verif_tier_c! {
+#[kani::stub(ringbuf::storage::Heap::new, crate::stream_tx::verif_stream_tx__tx::stub_heap_new)]
+#[kani::stub(crate::stream_tx_segments::Segments::pop_expired_mtu_probe, crate::stream_tx_segments::Segments::stub_pop_expired_mtu_probe)]
+#[kani::unwind(10)]
+fn vs_split_growth_wakes_blocked_writer() {
+    let mut t = make_vsock(VirtualSocketState::Established, VsConfig { link_mtu: 52, rx_buf: 12, nagle: true, ring: (8, 3, 8), tx_max: 16 });
+    {
+        let old = std::mem::replace(&mut t.vsock.user_tx_segments, segments_with::<2>(OUR_SEQ, [4, 4], 0b11, 9_900, false));
+        std::mem::forget(old);
+    }
+    t.vsock.last_sent_seq_nr = SeqNr(OUR_SEQ.wrapping_add(1));
+    t.vsock.seq_nr = SeqNr(OUR_SEQ.wrapping_add(2));
+    t.vsock.user_tx.locked.write().writer_waker = Some(crate::verif_lib__support::waker(W_WRITER));
+    let outstanding: bool = kani::any();
+    unsafe {
+        crate::stream_tx::verif_stream_tx__tx::EXPECT_NEW_CAP = 16;
+        crate::stream_tx_segments::verif_stream_tx_segments__seg::POPX_RESULT = if outstanding { 1 } else { 0 };
+    }
+    let w = cx_waker();
+    let mut cx = Context::from_waker(&w);
+    let r = t.vsock.split_tx_queue_into_segments(&mut cx);
+    let ok = r.is_ok();
+    std::mem::forget(r);
+    assert!(ok, "C10: segmentation does not fail");
+    let cap = {
+        use ringbuf::traits::Observer;
+        t.vsock.user_tx.consumer.lock().capacity().get()
+    };
+    assert!(cap == 16, "C19: a full send buffer below its configured maximum grows to min(2 * capacity, maximum)");
+    assert!(crate::verif_lib__support::wakes(W_WRITER) == 1, "C19: the blocked writer is woken as soon as the growth step frees space");
+    kani::cover!(outstanding, "growth while a probe is outstanding");
+    finish(t);
+}
+}
